@@ -1039,7 +1039,26 @@ std::string Generator::GeneratorImpl::generateOperatorCode(const std::string &op
                    || isMinusOperator(astRightChild)) {
             if (astRightChild->rightChild() != nullptr) {
                 astRightChildCode = "(" + astRightChildCode + ")";
+            } else if (isMinusOperator(astRightChild)
+                       && (isTimesOperator(astRightChild->leftChild())
+                           || isDivideOperator(astRightChild->leftChild()))) {
+                // Something like a/-(b*c), which would otherwise be output
+                // as a/-b*c, i.e. (a/-b)*c.
+
+                astRightChildCode = "(" + astRightChildCode + ")";
             }
+        }
+    } else if (isRelationalOperator(ast)) {
+        if (isRelationalOperator(astLeftChild)
+            || isLogicalOperator(astLeftChild)
+            || isPiecewiseStatement(astLeftChild)) {
+            astLeftChildCode = "(" + astLeftChildCode + ")";
+        }
+
+        if (isRelationalOperator(astRightChild)
+            || isLogicalOperator(astRightChild)
+            || isPiecewiseStatement(astRightChild)) {
+            astRightChildCode = "(" + astRightChildCode + ")";
         }
     } else if (isAndOperator(ast)) {
         // Note: according to the precedence rules above, we only need to
@@ -1230,11 +1249,72 @@ std::string Generator::GeneratorImpl::generateMinusUnaryCode(const AnalyserEquat
         || isLogicalOperator(astLeftChild)
         || isPlusOperator(astLeftChild)
         || isMinusOperator(astLeftChild)
-        || isPiecewiseStatement(astLeftChild)) {
+        || isPiecewiseStatement(astLeftChild)
+        || (code.rfind(mProfile->minusString(), 0) == 0)) {
         code = "(" + code + ")";
     }
 
     return mProfile->minusString() + code;
+}
+
+std::string Generator::GeneratorImpl::generatePlusUnaryCode(const AnalyserEquationAstPtr &ast) const
+{
+    // Generate the code for the left branch of the given AST.
+
+    auto astLeftChild = ast->leftChild();
+    auto code = generateCode(astLeftChild);
+
+    // A unary plus is not output, so its operand takes its place in the
+    // enclosing expression: add parentheses around anything that is an
+    // operator.
+
+    if (isRelationalOperator(astLeftChild)
+        || isLogicalOperator(astLeftChild)
+        || isPlusOperator(astLeftChild)
+        || isMinusOperator(astLeftChild)
+        || isTimesOperator(astLeftChild)
+        || isDivideOperator(astLeftChild)
+        || isPiecewiseStatement(astLeftChild)) {
+        code = "(" + code + ")";
+    }
+
+    return code;
+}
+
+std::string Generator::GeneratorImpl::generateNotCode(const AnalyserEquationAstPtr &ast) const
+{
+    // Generate the code for the left branch of the given AST.
+
+    auto astLeftChild = ast->leftChild();
+    auto code = generateCode(astLeftChild);
+
+    // Determine whether parentheses should be added around the left code.
+
+    if (isRelationalOperator(astLeftChild)
+        || isLogicalOperator(astLeftChild)
+        || isPlusOperator(astLeftChild)
+        || isMinusOperator(astLeftChild)
+        || isTimesOperator(astLeftChild)
+        || isDivideOperator(astLeftChild)
+        || isPiecewiseStatement(astLeftChild)) {
+        code = "(" + code + ")";
+    }
+
+    return mProfile->notString() + code;
+}
+
+std::string Generator::GeneratorImpl::generatePiecewiseOperandCode(const AnalyserEquationAstPtr &ast) const
+{
+    // Generate the code for a condition or a value of a piecewise statement,
+    // with parentheses around it if it is itself a piecewise statement.
+
+    auto code = generateCode(ast);
+
+    if (isPiecewiseStatement(ast)) {
+        code = "(" + code + ")";
+    }
+
+    return code;
 }
 
 std::string Generator::GeneratorImpl::generateOneParameterFunctionCode(const std::string &function,
@@ -1357,7 +1437,7 @@ std::string Generator::GeneratorImpl::generateCode(const AnalyserEquationAstPtr 
         break;
     case AnalyserEquationAst::Type::NOT:
         if (mProfile->hasNotOperator()) {
-            code = mProfile->notString() + generateCode(ast->leftChild());
+            code = generateNotCode(ast);
         } else {
             code = generateOneParameterFunctionCode(mProfile->notString(), ast);
         }
@@ -1367,7 +1447,7 @@ std::string Generator::GeneratorImpl::generateCode(const AnalyserEquationAstPtr 
         if (ast->rightChild() != nullptr) {
             code = generateOperatorCode(mProfile->plusString(), ast);
         } else {
-            code = generateCode(ast->leftChild());
+            code = generatePlusUnaryCode(ast);
         }
 
         break;
@@ -1605,7 +1685,7 @@ std::string Generator::GeneratorImpl::generateCode(const AnalyserEquationAstPtr 
         }
     } break;
     case AnalyserEquationAst::Type::PIECE:
-        code = generatePiecewiseIfCode(generateCode(ast->rightChild()), generateCode(ast->leftChild()));
+        code = generatePiecewiseIfCode(generatePiecewiseOperandCode(ast->rightChild()), generatePiecewiseOperandCode(ast->leftChild()));
 
         break;
     case AnalyserEquationAst::Type::OTHERWISE:
